@@ -776,6 +776,13 @@ func (c *e2Cluster) WaitPeerTrafficDrained() bool {
 	return c.WaitFor(func() bool { return c.Sum("libhoney_peer_queued_items") == 0 })
 }
 
+// WaitPeerTrafficDrainedTo is WaitPeerTrafficDrained with a floor: events that
+// are known to be stuck in a peer transmission (they never leave
+// libhoney_peer_queued_items) are discounted.
+func (c *e2Cluster) WaitPeerTrafficDrainedTo(stuck int64) bool {
+	return c.WaitFor(func() bool { return c.Sum("libhoney_peer_queued_items") <= stuck })
+}
+
 // WaitCollectorsIdle waits until every span that reached a collector queue
 // was processed and every trace a collector accepted has been decided.
 // wantProcessed is the number of spans expected to reach collectors since
